@@ -42,15 +42,16 @@ def make_case(rng, i, ctx):
     else:
         x = np.round(rng.uniform(lo, hi, size=(2, npts)), 2)
         truth = np.array([f(ptrue, x[:, j]) for j in range(npts)])
-    kind = str(rng.choice(['independent', 'shared', 'mixed']))
-    corr_mode = 'estimated' if (kind == 'shared' and npts <= 7 and rng.random() < 0.5) else 'none'
+    force = (i % 6 == 0)                      # every sixth case: correlated chi^2 together with priors
+    kind = 'shared' if force else str(rng.choice(['independent', 'shared', 'mixed']))
+    corr_mode = 'estimated' if (kind == 'shared' and npts <= 8 and (force or rng.random() < 0.5)) else 'none'
     ys = fitgen.data_points(rng, truth, kind, npts, nsamp=60 if corr_mode != 'none' else 30)
     [o.gamma_method() for o in ys]
     numgrad = bool(rng.random() < 0.2)
     kw = {'silent': True, 'initial_guess': [p * float(rng.uniform(0.9, 1.1)) for p in ptrue]}
     if numgrad:
         kw['num_grad'] = True
-    pri_form = str(rng.choice(['none', 'none', 'dict']))
+    pri_form = 'dict' if force else str(rng.choice(['none', 'none', 'dict']))
     priors = None
     if pri_form == 'dict':
         k = int(rng.integers(0, n))
